@@ -60,6 +60,15 @@ SUITES = {
         stubs=["std::panic::catch_unwind -> call the closure (Kani has no unwinding)"],
         replay_bin="kani/alloc_tracker/replay",
     ),
+    "nm_impl": dict(
+        kind="incrate", package="nm_impl", prefix="folo_verif::",
+        sources=["kani/nm_impl/harness.rs"],
+        env={"CARGO_PROFILE_DEV_DEBUG_ASSERTIONS": "false"},
+        functions=["nm_impl::ObservationBag::{new,insert,count,take_dirty_buckets}", "ObservationBagSync::{new,insert,copy_from,drain_overflow_buckets,merge_from}",
+                   "clear_lowest_set_bit", "ObservationBagSnapshot::merge_from", "MetricsPusher::push"],
+        stubs=[],
+        replay_bin="kani/nm_impl/replay",
+    ),
 }
 
 
